@@ -25,6 +25,8 @@ struct Ctx<'a> {
     corr_every: [u64; 4],
     /// every how many cases a `GSQ` line (exact instance vs Float instance, both distances exact) is emitted
     q_every: u64,
+    /// exploration mode (`VERIF_C13_DEEP=1`, never set by ./check): only section 3, larger, no lines
+    deep: bool,
 }
 
 fn gcd(mut a: u128, mut b: u128) -> u128 {
@@ -254,7 +256,9 @@ impl Ctx<'_> {
         let line = request_line(&c, d);
         let (cap, j) = judgements(&c, d);
         run.eval((j > 0).then_some(line.as_str()));
-        corr_line(run, &id, &c, d, &o);
+        if !self.deep {
+            corr_line(run, &id, &c, d, &o);
+        }
         let Ok(s) = &o.s1 else {
             run.fail("oracle:generate_state-fails", "", &id, format!("{:?}", o.s1), format!("{}\n{}", describe(&c, d), line));
             return;
@@ -396,13 +400,15 @@ pub fn run(tier: &str, seed: u64, only: Option<&str>) -> Run {
         cache: HashMap::new(),
         corr_every: if thorough { [1, 1, 1, 2] } else { [2, 1, 1, 3] },
         q_every: if thorough { 2 } else { 5 },
+        deep: std::env::var("VERIF_C13_DEEP").is_ok(),
     };
     let mut rng = Rng::new(seed ^ 0xC13);
     let grid_step = if thorough { 0.25 } else { 0.5 };
     let max_obj = if thorough { 8 } else { 7 };
 
     // 1. exhaustive small shapes x every miss count x grid + exact midpoints x priority x origin
-    for mode in [OSU, TAIKO, CATCH, MANIA] {
+    let deep = cx.deep;
+    for mode in if deep { vec![] } else { vec![OSU, TAIKO, CATCH, MANIA] } {
         let nf = N_FIELDS[mode as usize];
         let origins: &[u8] = match mode {
             OSU => &[0, 2, 3],
@@ -465,7 +471,7 @@ pub fn run(tier: &str, seed: u64, only: Option<&str>) -> Run {
     }
 
     // 2. sampled larger shapes with an independently computed exact optimum
-    let n_large = if thorough { 40_000 } else { 6_000 };
+    let n_large = if deep { 0 } else if thorough { 40_000 } else { 6_000 };
     for i in 0..n_large {
         let mode = [OSU, TAIKO, CATCH, MANIA][i % 4];
         let nf = N_FIELDS[mode as usize];
@@ -573,12 +579,11 @@ pub fn run(tier: &str, seed: u64, only: Option<&str>) -> Run {
         }
     }
     // 3. the search arms with some hit results provided (outside the quantifier; measured per arm)
-    let deep = std::env::var("VERIF_C13_DEEP").is_ok();
-    let max_obj3 = if deep { 9 } else if thorough { 6 } else { 5 };
-    let n_assign = if deep { 60 } else if thorough { 8 } else { 3 };
-    let n_mid = if deep { 60 } else if thorough { 12 } else { 6 };
-    let grid3 = if deep { 1.0 } else if thorough { 5.0 } else { 10.0 };
-    for mode in [OSU, CATCH, MANIA] {
+    let max_obj3 = if deep { 10 } else if thorough { 6 } else { 5 };
+    let n_assign = if deep { 12 } else if thorough { 8 } else { 3 };
+    let n_mid = if deep { 40 } else if thorough { 12 } else { 6 };
+    let grid3 = if deep { 2.5 } else if thorough { 5.0 } else { 10.0 };
+    for mode in if deep { vec![MANIA] } else { vec![OSU, CATCH, MANIA] } {
         let nf = N_FIELDS[mode as usize];
         let origins: &[u8] = match mode {
             OSU => &[0, 2, 3],
